@@ -27,6 +27,9 @@ def build_jobs(run: Run, quick: bool):
     for label, d in docs.matrix_docs():
         for le in (False, True):
             add(d, "matrix:" + label, {"matrix", label.split(":")[1], "le" if le else "enum"}, cfg={"literal_enums": le}, meta="none")
+    for k, (label, d) in enumerate(docs.interplay_docs()):
+        for le in ((k % 2 == 0,) if quick else (False, True)):
+            add(d, label, {"interplay", label.split(":")[1].rsplit("_", 1)[0], "le" if le else "enum"}, cfg={"literal_enums": le}, meta="none")
     n = 260 if quick else 6000
     for i in range(n):
         hostile = [0.0, 0.35, 0.7][i % 3]
@@ -81,12 +84,18 @@ def judge(run: Run, j: dict, r: dict, inf: dict):
         ev.count("sandbox_action_failed")
         return
     ev.count("modules_imported", res.get("modules", 0))
+    # mechanism: a generated class carries the very name the templates import from typing / the package (class Union, class Any ...)
+    shadow = set()
+    for rel, text in (r.get("tree") or {}).items():
+        if isinstance(text, str) and "/models/" in "/" + rel:
+            shadow |= set(re.findall(r"^(?:class )?(Union|Any|Optional|Literal|TYPE_CHECKING|TypeVar|Mapping|BinaryIO|Generator|Unset|UNSET|File|Response|Client|AuthenticatedClient|HTTPStatus)\b(?:\(| = |:)", text, re.M))
+    shadow_mech = ":class_shadows_template_import" if shadow else ""
     for e in res.get("errors", []):
         x = e["exc"]
         if x["type"] == "SyntaxError":
             continue  # reported above from the tree (same file or a file importing it)
         n_problems += 1
-        vd.violation(f"import_error:{artefact_kind(e['module'].replace('.', '/') + '.py')}:{x['type']}", f"{e['module']}: {x['type']}: {x['msg']}", witness)
+        vd.violation(f"import_error:{artefact_kind(e['module'].replace('.', '/') + '.py')}:{x['type']}{shadow_mech if x['type'] in ('TypeError', 'NameError', 'AttributeError', 'ImportError') else ''}", f"{e['module']}: {x['type']}: {x['msg']}", witness)
     removed = removed_by_cascade(r.get("diags") or [])
     for u in res.get("unresolved", []):
         if "SyntaxError" in u["what"]:
@@ -99,7 +108,7 @@ def judge(run: Run, j: dict, r: dict, inf: dict):
             continue  # consequence of a module that does not compile
         n_problems += 1
         m = re.search(r"name '(\w+)' is not defined", h["exc"])
-        mech = dangling_mechanism({"module": h["module"], "names": [m.group(1)] if m else []}, r.get("tree") or {}, removed)
+        mech = dangling_mechanism({"module": h["module"], "names": [m.group(1)] if m else []}, r.get("tree") or {}, removed) or shadow_mech
         vd.violation(f"annotation_unresolvable:{artefact_kind(h['module'].replace('.', '/') + '.py')}{mech}", f"{h['module']}.{h['obj']}: {h['exc']}", witness)
     for f in sb.get("foreign_imports", []):
         n_problems += 1
